@@ -161,7 +161,7 @@ pub mod model {
             self.live.insert(p, len);
             self.writable.insert(p);
             // a fresh anonymous mapping reads as zeros
-            unsafe { std::ptr::write_bytes(p as *mut u8, 0, self.page as usize) };
+            unsafe { std::ptr::write_bytes(p as *mut u8, 0, 64) };
             p
         }
 
@@ -172,7 +172,7 @@ pub mod model {
                     self.far_used.insert(p);
                     self.live.insert(p, len);
                     self.writable.insert(p);
-                    unsafe { std::ptr::write_bytes(p as *mut u8, 0, self.page as usize) };
+                    unsafe { std::ptr::write_bytes(p as *mut u8, 0, 64) };
                     return p;
                 }
             }
@@ -202,7 +202,7 @@ pub mod model {
                     }
                 }
             };
-            if self.log.len() < 64 || ret != FAILED {
+            if self.log.len() < 64 || (ret != FAILED && self.in_region(ret)) {
                 // (a full-window search is 65 537 calls: keep the log bounded but never drop
                 // a successful mapping)
                 self.log.push(Ev::Mmap { hint, len, prot, ret });
@@ -234,7 +234,9 @@ pub mod model {
                     if len == 0 { -1 } else { 0 }
                 }
             };
-            self.log.push(Ev::Munmap { addr, len, ret });
+            if self.log.len() < 256 {
+                self.log.push(Ev::Munmap { addr, len, ret });
+            }
             ret
         }
 
